@@ -281,7 +281,7 @@ func (c *Ctx) gaugeWriters() {
 			n := CalleeName(ci)
 			if strings.HasSuffix(n, "Backend).IncrementConnections") || strings.HasSuffix(n, "Backend).DecrementConnections") {
 				nCalls++
-				if outermost(fn) != c.proxyFn() {
+				if outermost(fn) != c.proxyFn() && !c.onlyCalledFrom(outermost(fn), c.proxyFn(), 0) {
 					bad = append(bad, p.InstrPos(ci)+": "+p.FuncKey(fn)+" changes a backend's in-flight gauge outside the function that forwards the request")
 				}
 			}
@@ -354,6 +354,10 @@ func (c *Ctx) collectorConservation() {
 							return "add " + f.Key() + " " + p.Desc(ci.Common().Args[1], fr)
 						}
 					}
+					if ph, isPhi := ci.Common().Args[0].(*ssa.Phi); isPhi {
+						// the counter is chosen by a branch: labelled with the φ, resolved per path by the judge
+						return "add-phi " + p.Desc(ci.Common().Args[1], fr) + " " + fmt.Sprintf("%p", ph)
+					}
 					return "add ? " + p.Desc(ci.Common().Args[1], fr)
 				}
 				if strings.HasPrefix(n, "sync/atomic.Store") || strings.HasPrefix(n, "sync/atomic.Swap") || strings.HasPrefix(n, "sync/atomic.CompareAndSwap") {
@@ -378,8 +382,52 @@ func (c *Ctx) collectorConservation() {
 			return pk != nil && strings.HasSuffix(pk.Pkg.Path(), "/internal/metrics") && !callee.Object().Exported() && callee.Name() != "updateAverageResponseTime"
 		},
 	}
+	// for a counter address chosen by a branch (φ of field addresses): the field this path selected
+	phiField := func(t *Trace, it Item) string {
+		ci, ok := it.Instr.(ssa.CallInstruction)
+		if !ok {
+			return ""
+		}
+		ph, ok := ci.Common().Args[0].(*ssa.Phi)
+		if !ok {
+			return ""
+		}
+		for _, jt := range t.Items {
+			ifi, isIf := jt.Instr.(*ssa.If)
+			if !isIf {
+				continue
+			}
+			b := ifi.Block()
+			taken := b.Succs[1]
+			if jt.Pol {
+				taken = b.Succs[0]
+			}
+			for i, pred := range ph.Block().Preds {
+				chosen := (taken == ph.Block() && pred == b) || (taken != ph.Block() && (pred == taken || taken.Dominates(pred)))
+				if !chosen {
+					continue
+				}
+				if fa, isFA := ph.Edges[i].(*ssa.FieldAddr); isFA {
+					if f, ok := fieldRefOf(fa); ok {
+						return f.Key()
+					}
+				}
+			}
+		}
+		return ""
+	}
 	counts := func(t *Trace, key string) (plusOne, other int) {
 		for _, it := range t.Items {
+			if strings.HasPrefix(it.Label, "add-phi ") {
+				if phiField(t, it) == key {
+					if strings.HasPrefix(it.Label, "add-phi k:1 ") {
+						plusOne++
+					} else {
+						other++
+					}
+				}
+				continue
+			}
 			switch {
 			case it.Label == "add "+key+" k:1":
 				plusOne++
@@ -484,4 +532,29 @@ func (c *Ctx) collectorConservation() {
 				return ""
 			})
 	}
+}
+
+// onlyCalledFrom: every static call site of fn lies in root (or in a function that is itself only
+// called from root): fn is a piece of root that was given a name.
+func (c *Ctx) onlyCalledFrom(fn, root *ssa.Function, depth int) bool {
+	p := c.P
+	if fn == nil || root == nil || depth > 3 {
+		return false
+	}
+	n := 0
+	for _, g := range p.Funcs {
+		if !p.InScope(g) {
+			continue
+		}
+		for _, ci := range callsIn(g) {
+			if StaticFn(ci) != fn {
+				continue
+			}
+			n++
+			if o := outermost(g); o != root && !c.onlyCalledFrom(o, root, depth+1) {
+				return false
+			}
+		}
+	}
+	return n > 0
 }
